@@ -36,7 +36,12 @@ theorem all2_head {s' : State} {stack : List Ref} {ty : TyId} {b : Bool} {rest :
   | nil => exact h.elim
   | cons r rs => exact ⟨r, rs, rfl, h.1, h.2⟩
 
-theorem tstep_inv (hinv : Inv sys s) (ht : TInv G sys s) (t : Tid) : TInv G sys (step sys s t) := by
+theorem specRes_ok {G : Graph} {n d : Nat} {ty : TyId} (h : failsTy G ty = false) :
+    specRes G n d ty = unfold G n d ty := by
+  simp [specRes, h]
+
+theorem tstep_inv (hf : ∀ ty, sys.fails ty = failsTy G ty) (hinv : Inv sys s) (ht : TInv G sys s) (t : Tid) :
+    TInv G sys (step sys s t) := by
   unfold step
   cases hth : s.threads[t]? with
   | none => exact ht
@@ -81,20 +86,36 @@ theorem tstep_inv (hinv : Inv sys s) (ht : TInv G sys s) (t : Tid) : TInv G sys 
           sub := fun pc r h => by
             simp only [nextPhase] at h
             split at h <;> cases h
-          put := fun h => by
+          put := fun h hnf => by
             simp only [nextPhase] at h
             split at h
             · cases h
             · rename_i hlen
               have hlen0 : (sys.body th.ty).length = 0 := by omega
-              have := typed_final hT.typed
+              have := typed_final_ok hT.typed hnf
               rw [hlen0] at this
               simp [absAt, absRun] at this
           call := fun r h => absurd h (nextPhase_ne_call _ _ _)
           locs := fun loc x h => by cases h
           res := hT.res }
     | put =>
-      obtain ⟨r, rest, hstack, hr⟩ := hT.put hp
+      simp only
+      by_cases hfl : sys.fails th.ty = true
+      · -- the request cannot be satisfied: ProviderNotFoundError is the specified outcome
+        rw [if_pos hfl]
+        refine frame_local _ _ {
+          typed := hT.typed
+          stack := fun pc sub h => by cases h
+          sub := fun pc r h => by cases h
+          put := fun h => by cases h
+          call := fun r' h => by cases h
+          locs := hT.locs
+          res := fun res h => by
+            cases h
+            simp [specRes, ← hf, hfl] }
+      rw [if_neg hfl]
+      have hnf : failsTy G th.ty = false := by rw [← hf]; simpa using hfl
+      obtain ⟨r, rest, hstack, hr⟩ := hT.put hp hnf
       have hhead : th.stack.headD (.prim 0) = r := by rw [hstack]; rfl
       simp only [stepPut, hhead]
       have e : TExt s (emit (setThread { s with loaderCache := lcPut s.loaderCache th.ty r } t
@@ -107,13 +128,13 @@ theorem tstep_inv (hinv : Inv sys s) (ht : TInv G sys s) (t : Tid) : TInv G sys 
         simp only [emit_loaderCache, setThread_loaderCache] at hen
         rcases mem_lcPut' hen with h | ⟨h1, h2⟩
         · exact Or.inl h
-        · exact Or.inr (by rw [h1, h2]; exact hr.mono e)
+        · exact Or.inr (by rw [h1, h2]; exact ⟨hr.mono e, hnf⟩)
       · exact {
           typed := hT.typed
           stack := fun pc sub h => by cases h
           sub := fun pc r h => by cases h
           put := fun h => by cases h
-          call := fun r' h => by cases h; exact hr.mono e
+          call := fun r' h => by cases h; exact ⟨hr.mono e, hnf⟩
           locs := hT.locs
           res := hT.res }
     | call r =>
@@ -127,7 +148,8 @@ theorem tstep_inv (hinv : Inv sys s) (ht : TInv G sys s) (t : Tid) : TInv G sys 
         locs := hT.locs
         res := fun res h => by
           cases h
-          exact eval_unfold hinv ht sys.fuel th.depth r th.ty (hI.call r hp) (hT.call r hp) }
+          rw [specRes_ok (hT.call r hp).2]
+          exact eval_unfold hinv ht sys.fuel th.depth r th.ty (hI.call r hp) (hT.call r hp).1 }
     | run pc sub =>
       obtain ⟨st, hst, hall⟩ := hT.stack pc sub hp
       simp only
@@ -135,20 +157,21 @@ theorem tstep_inv (hinv : Inv sys s) (ht : TInv G sys s) (t : Tid) : TInv G sys 
       | none =>
         -- off the end of the program: the abstract stack is the final one
         have hge : (sys.body th.ty).length ≤ pc := List.getElem?_eq_none_iff.mp hins
-        have hfin : absAt G (sys.body th.ty) pc = some [(th.ty, false)] := by
-          have := typed_final hT.typed
-          unfold absAt at this ⊢
-          rw [List.take_of_length_le hge]
-          rw [List.take_length] at this
-          exact this
-        rw [hfin] at hst
-        cases hst
-        obtain ⟨r, rs, hs, hr, _⟩ := all2_head hall
         refine frame_local _ _ {
           typed := hT.typed
           stack := fun pc sub h => by cases h
           sub := fun pc r h => by cases h
-          put := fun _ => ⟨r, rs, hs, hr.1⟩
+          put := fun _ hnf => by
+            have hfin : absAt G (sys.body th.ty) pc = some [(th.ty, false)] := by
+              have := typed_final_ok hT.typed hnf
+              unfold absAt at this ⊢
+              rw [List.take_of_length_le hge]
+              rw [List.take_length] at this
+              exact this
+            rw [hfin] at hst
+            cases hst
+            obtain ⟨r, rs, hs, hr, _⟩ := all2_head hall
+            exact ⟨r, rs, hs, hr.1⟩
           call := fun r' h => by cases h
           locs := hT.locs
           res := hT.res }
@@ -369,10 +392,10 @@ theorem tinit_inv (G : Graph) (sys : Sys) (reqs : List (TyId × Nat))
         locs := fun loc x h => by simp [mkThread] at h
         res := fun res h => by simp [mkThread] at h }
 
-theorem run_tinv (hmode : sys.mode = .byId) (σ : List Tid) : ∀ {s : State}, Inv sys s → TInv G sys s →
-    TInv G sys (run sys s σ) := by
+theorem run_tinv (hmode : sys.mode = .byId) (hf : ∀ ty, sys.fails ty = failsTy G ty) (σ : List Tid) :
+    ∀ {s : State}, Inv sys s → TInv G sys s → TInv G sys (run sys s σ) := by
   induction σ with
   | nil => exact fun _ h => h
-  | cons t σ ih => exact fun hi ht => ih (step_inv hmode hi t) (tstep_inv hi ht t)
+  | cons t σ ih => exact fun hi ht => ih (step_inv hmode hi t) (tstep_inv hf hi ht t)
 
 end Adaptix.Threads
